@@ -99,6 +99,7 @@ std::vector<uint64_t> Hist::owned_ids(const HNode& n, const char* props) {
 }
 
 bool Hist::verify(const HNode& n, const char* props, const std::string& ctx) {
+  if (light) return true;
   const cbor_item_t* it = n.impl;
   auto bad = [&](const std::string& m) { fail(props, "model-divergence", ctx + fmt(": node #%d: ", n.id) + m); return false; };
   if (!it) return bad("no implementation item");
@@ -166,6 +167,7 @@ bool Hist::verify(const HNode& n, const char* props, const std::string& ctx) {
 }
 
 void Hist::check_refcounts(const char* props, const std::string& ctx) {
+  if (light) return;
   for (auto& n : nodes) if (n.alive && n.impl) {
     size_t rc = cbor_refcount(n.impl);
     if (count(n.id) >= 2) seen_shared = true;
@@ -183,16 +185,8 @@ int Hist::adopt_tree(cbor_item_t* it, const MV& shape, const char* props, std::s
   seen.insert(it);
   int id = new_node(shape.kind);
   { HNode& n = nodes[id]; n.width = shape.width; n.val = shape.val; n.definite = shape.definite; n.bytes = shape.bytes; n.impl = it; n.capacity = (shape.kind == MK_MAP ? shape.kids.size() / 2 : shape.kids.size()); }
-  // children via the documented handles
-  std::vector<cbor_item_t*> ch;
-  switch (cbor_typeof(it)) {
-    case CBOR_TYPE_ARRAY: if (cbor_array_size(it) && !cbor_array_handle(it)) { fail(props, "built-tree-shape", path + ": array with elements but NULL storage"); return id; } for (size_t i = 0; i < cbor_array_size(it); i++) ch.push_back(cbor_array_handle(it)[i]); break;
-    case CBOR_TYPE_MAP: if (cbor_map_size(it) && !cbor_map_handle(it)) { fail(props, "built-tree-shape", path + ": map with pairs but NULL storage"); return id; } for (size_t i = 0; i < cbor_map_size(it); i++) { ch.push_back(cbor_map_handle(it)[i].key); ch.push_back(cbor_map_handle(it)[i].value); } break;
-    case CBOR_TYPE_TAG: if (it->metadata.tag_metadata.tagged_item) ch.push_back(it->metadata.tag_metadata.tagged_item); break;
-    case CBOR_TYPE_BYTESTRING: if (cbor_bytestring_is_indefinite(it)) for (size_t i = 0; i < cbor_bytestring_chunk_count(it); i++) ch.push_back(cbor_bytestring_chunks_handle(it)[i]); break;
-    case CBOR_TYPE_STRING: if (cbor_string_is_indefinite(it)) for (size_t i = 0; i < cbor_string_chunk_count(it); i++) ch.push_back(cbor_string_chunks_handle(it)[i]); break;
-    default: break;
-  }
+  // children straight from the struct layout (no getter is called on a tree the harness merely enumerates)
+  std::vector<cbor_item_t*> ch; raw_children(it, ch);
   if (ch.size() != shape.kids.size()) { fail(props, "built-tree-shape", path + fmt(": %zu children, expected %zu", ch.size(), shape.kids.size())); return id; }
   for (size_t i = 0; i < ch.size() && !failed() && !g_run.foreign_seen; i++) {
     int k = adopt_tree(ch[i], shape.kids[i], props, seen, path + fmt("/%zu", i));
